@@ -21,7 +21,7 @@ ASSUMPTIONS = [
     "SimTransport reproduces CPython selector-transport semantics (DESIGN appendix B)",
     "attribution is not asserted for a connection on which an unsolicited response was injected while a request was in flight (indistinguishable in HTTP/1.1); such injections happen only while idle",
 ]
-TIERS = {"quick": {"runs": 6000, "wall": 55}, "thorough": {"runs": 400000, "wall": 1500}}
+TIERS = {"quick": {"runs": 20000, "wall": 55}, "thorough": {"runs": 400000, "wall": 1500}}
 
 
 def gen_plan(seed: int, tier: str) -> dict:
